@@ -255,20 +255,33 @@ def check_strings(rep, prog):
     a = I2.method(e2r, "get_args")
     items = list_items(I2, a) or []
     bad = None
-    if len(items) != 5:
-        bad = "at most %d arguments are extracted, the format allows 5" % len(items)
-    else:
-        for n in (0, 3, 4, 7, 8, 12, 19, 20, 24, 64):
-            buf = bytes(range(1, n + 1))
-            for tg in (0x4654, 0x4644):
-                env = {ED: buf, Op("len", ED): n, tag: tg}
-                got = []
-                for it in items:
-                    if bool(evaluate(it[2], env)):
-                        got.append(evaluate(it[1], env))
-                want = [] if tg == 0x4644 else [int.from_bytes(buf[4 * k:4 * k + 4], "big") for k in range(min(5, n // 4))]
-                if got != want:
-                    bad = bad or "%d data bytes, tag 0x%04X: arguments %r, expected %r" % (n, tg, got, want)
+    alts = []          # (condition, items) alternatives of the returned value
+    def collect(v, cond):
+        if isinstance(v, Ite):
+            collect(v.a, and_(cond, v.c))
+            collect(v.b, and_(cond, not_(v.c)))
+        elif isinstance(v, Ref) and list_items(I2, v) is not None:
+            alts.append((cond, list_items(I2, v)))
+        elif isinstance(v, Const) and isinstance(v.v, tuple):
+            alts.append((cond, [("v", Const(x), TRUE) for x in v.v]))
+        else:
+            raise AnalysisError("get_args returns something that is not a summarised tuple/list: %r" % (v,))
+    collect(a, TRUE)
+    nval = 0
+    for n in (0, 3, 4, 7, 8, 12, 19, 20, 23, 24, 64):
+        buf = bytes(range(1, n + 1))
+        for tg in (0x4654, 0x4644):
+            env = {ED: buf, Op("len", ED): n, tag: tg}
+            try:
+                live = [its for cond, its in alts if bool(evaluate(cond, env))]
+                got = pelx.eval_items(live[0], env) if len(live) == 1 else None
+            except CannotEval as e:
+                raise AnalysisError("get_args summary not evaluable: %s" % e)
+            nval += 1
+            want = [] if tg == 0x4644 else [int.from_bytes(buf[4 * k:4 * k + 4], "big") for k in range(min(5, n // 4))]
+            if got != want:
+                bad = bad or "%d data bytes, tag 0x%04X: arguments %r, expected %r" % (n, tg, got, want)
+    rep.count("get_args valuations", nval)
     rep.check(bad is None, rule, "arguments = up to five 32-bit big-endian words of the entry data, none for binary entries", TR + "TraceEntry.get_args",
               "get_args", bad)
     # strings kept in file order
@@ -353,7 +366,7 @@ def check_rendering(rep, prog):
     # fallback for unparsable input + header lines
     I2 = Interpreter(prog, hooks={"opaque": {TR + "TraceBuffer.read", "pel.hexdump.hexdump", TR + "_format_trace_entry", TR + "TraceStringFile.__init__"}})
     r = I2.call(TR + "parse_trace_data", [DATA, Sym("string_file")])
-    its = list_items(I2, r) or []
+    its = pelx.merged_items(I2, r) or []
     rd = [x for i in its for x in walk(i[3] if i[0] == "rep" else i[2]) if isinstance(x, Op) and x.op == "call:" + TR + "TraceBuffer.read"]
     fb = [i for i in its if any(isinstance(x, Op) and x.op == "call:pel.hexdump.hexdump" and x.args[0] == DATA for x in walk(i[1] if i[0] == "v" else i[2]))]
     okf = bool(rd) and len(fb) == 1 and implies(fb[0][2] if fb[0][0] == "v" else fb[0][3], not_(rd[0]))[0]
@@ -361,7 +374,7 @@ def check_rendering(rep, prog):
               "the unparsable-input fallback does not hex-dump the whole input")
     I3 = Interpreter(prog, hooks={"opaque": {TR + "TraceEntry.read", "pel.hexdump.hexdump", TR + "_format_trace_entry", TR + "TraceStringFile.__init__"}})
     r3 = I3.call(TR + "parse_trace_data", [DATA, Sym("string_file")])
-    heads = [i[1] for i in (list_items(I3, r3) or []) if i[0] == "v" and isinstance(i[1], Op) and i[1].op in ("fmt", "concat")]
+    heads = [i[1] for i in (pelx.merged_items(I3, r3) or []) if i[0] == "v" and isinstance(i[1], Op) and i[1].op in ("fmt", "concat")]
     want_h = {"Component: ": (4, 16), "Version: ": (0, 1), "Size: ": (20, 24), "Times Wrapped: ": (24, 28)}
     okhd = True
     for lit, (lo, hi) in want_h.items():
